@@ -124,4 +124,43 @@ def lockLeftAtExit (releaseOnLoadFailure : Bool) (c : Cmd) (f : Fate) : Bool :=
     else if f.userFails then !releaseOnLoadFailure
     else !c.closes
 
+
+/-! ## what the lock file holds
+
+`RepoCache.lock` writes `fmt.Sprintf("%d", os.Getpid())`; `repoIsAvailable` reads at most `limit`
+bytes (`io.LimitReader`), refuses the file when it got `refuse` bytes or more, and parses the rest
+with `strconv.Atoi`. -/
+
+def renderPid (pid : Nat) : String := toString pid
+
+inductive ReadErr where
+  | tooLong
+  | notANumber
+deriving DecidableEq, Repr
+
+/-- decimal digits, most significant first, continuing from `acc` -/
+def digitsAcc (acc : Nat) : List Char → Option Nat
+  | [] => some acc
+  | c :: r => if c.isDigit then digitsAcc (acc * 10 + (c.toNat - 48)) r else none
+
+/-- `strconv.Atoi` (base 10: an optional sign, then at least one ASCII digit and nothing else; the
+overflow of 64 bits is out of reach of a file that short) -/
+def atoi (s : List Char) : Option Int :=
+  match s with
+  | '+' :: r => if r.isEmpty then none else (digitsAcc 0 r).map Int.ofNat
+  | '-' :: r => if r.isEmpty then none else (digitsAcc 0 r).map (fun n => -Int.ofNat n)
+  | r => if r.isEmpty then none else (digitsAcc 0 r).map Int.ofNat
+
+/-- `len(buf)` counts bytes -/
+def utf8Len (l : List Char) : Nat := (l.map Char.utf8Size).sum
+
+def readLock (limit refuse : Nat) (content : String) : Except ReadErr Int :=
+  -- (the reader limits bytes; the contents of interest are ASCII, where bytes are characters —
+  --  for other text the byte count decides the length test and Atoi refuses it anyway)
+  let buf := content.toList.take limit
+  if refuse ≤ min limit (utf8Len content.toList) then .error .tooLong
+  else match atoi buf with
+    | some n => .ok n
+    | none => .error .notANumber
+
 end GitBugModel.LockFile
